@@ -17,6 +17,16 @@ percent-encode in the document URI — blanks, non-ASCII letters, `#`, `%`, `+`,
 percent-decodes to the URI of another document of the scenario — in three URI spellings (`Path.as_uri()`-style, lower-case hex,
 minimal encoding). All depth <= 2 histories run under every naming; the sampled and the random ones rotate through them.
 
+A *deprecation* family: one document shape with every kind of symbol (namespace, record, enum, flags, error domain, named function,
+interface with static / plain method, property, callback) in which every declaration that can carry a comment has none / a doc comment /
+`@deprecated` / `@deprecated <reason>` / both — all (spot, form) pairs occur —, toggled through didChange (every ordered triple of the
+uniform texts, seeded walks over the pool on two documents), documentSymbol in both client modes after every step. A *half-typed* family:
+valid documents with a junk / incomplete declaration inserted (the parser's recovered tree), typed into an open document and repaired.
+`corpus/c18.json` (classes of inputs that were blind spots once) runs first.
+The symbols the current text has to yield are stated in `lsp.expected_symbol` / `expected_flat_kind` / `is_deprecated` from the front end's
+AST — never through `pydjinni_language_server.util` —: every returned symbol, children included, is compared in name, kind, ranges, detail,
+`deprecated` (absent on fields / items / flags / error codes / parameters: the server lists them without it) and `tags`.
+
 Specification on the implementation's observations (`c18.check` -> Lean `specCheck`): after open/change exactly one publication,
 equal to `diagsOf (front (current text))`; queries answer what a cache-free server would answer from the current text
 (`null` for a document that is not open); close/save/queries publish nothing; no handler logs an internal error.
@@ -268,6 +278,149 @@ def final_battery(scn, seq):
     return out
 
 
+# ---- deprecation family: every kind of symbol, every declaration that can carry a comment, with / without `@deprecated [reason]` ----
+# One document shape with a namespace, a record, an enum, flags, an error domain, a named function and an interface (static / plain
+# method, a property, a callback parameter) and a record that uses them; every declaration the grammar gives a `comment?` is a *spot*
+# whose comment takes one of the forms below. The symbol requests (hierarchical `DocumentSymbol` with children, flat `SymbolInformation`)
+# must report the `deprecated` attribute / `tags` of EVERY symbol as the current text has it — bare `@deprecated` (front end: True) and
+# `@deprecated <reason>` (front end: the reason text) alike — after every open / change that toggles a spot between the forms.
+DEP_SPOTS = ["ns", "inner", "inner.a", "rec", "rec.f", "rec.g", "en", "en.k", "en.l", "fl", "fl.a", "fl.b", "fl.c", "err", "err.c1", "err.c2",
+             "fn", "itf", "itf.m1", "itf.m2", "itf.pr", "use", "use.a"]
+DEP_FORMS = {
+    "none": lambda w: [],
+    "doc": lambda w: [f"# about {w}"],
+    "bare": lambda w: ["# @deprecated"],
+    "reason": lambda w: [f"# @deprecated use new_{w.replace('.', '_')} instead"],
+    "doc+bare": lambda w: [f"# about {w}", "# @deprecated"],
+    "doc+reason": lambda w: [f"# about {w},", "# second line", f"# @deprecated since 2.0: {w} goes away"],
+    "reason+doc": lambda w: ["# @deprecated: no longer needed", "#", f"# {w} was once useful"],
+}
+DEP_FORM_NAMES = list(DEP_FORMS)
+
+
+def dep_text(st):
+    """the document with the comment form `st[spot]` (default: none) in front of every declaration"""
+    def c(spot, ind=""):
+        return "".join(ind + l + "\n" for l in DEP_FORMS[st.get(spot, "none")](spot))
+    return (c("ns") + "namespace n.m {\n" + c("inner", "  ") + "  inner = record {\n" + c("inner.a", "    ") + "    a: string;\n  }\n}\n"
+            + c("rec") + "rec = record {\n" + c("rec.f", "  ") + "  f: i8;\n" + c("rec.g", "  ") + "  g: n.m.inner;\n}\n"
+            + c("en") + "en = enum {\n" + c("en.k", "  ") + "  k;\n" + c("en.l", "  ") + "  l;\n}\n"
+            + c("fl") + "fl = flags {\n" + c("fl.a", "  ") + "  a;\n" + c("fl.b", "  ") + "  b = all;\n" + c("fl.c", "  ") + "  c = none;\n}\n"
+            + c("err") + "err = error {\n" + c("err.c1", "  ") + "  c1(p: i8 q: rec);\n" + c("err.c2", "  ") + "  c2;\n}\n"
+            + c("fn") + "fn = function (a: i32) -> en;\n"
+            + c("itf") + "itf = main interface +cpp {\n" + c("itf.m1", "  ") + "  static m1(p: rec) -> en;\n"
+            + c("itf.m2", "  ") + "  m2(cb: (x: fl) -> string) throws err;\n" + c("itf.pr", "  ") + "  property pr: i8;\n}\n"
+            + c("use") + "use = record {\n" + c("use.a", "  ") + "  a: rec; b: en; c: fl; d: fn; f: list<n.m.inner>;\n}\n")
+
+
+def dep_scenario(seed, n_random):
+    """texts 0-3: no comment at all / every spot bare / every spot with a reason / every spot documented but not deprecated;
+    then seeded texts: each spot draws its form; every (spot, form) pair occurs in some text of the pool (round-robin base + shuffle)"""
+    states = [{}, {w: "bare" for w in DEP_SPOTS}, {w: "reason" for w in DEP_SPOTS}, {w: "doc" for w in DEP_SPOTS}]
+    for i in range(n_random):
+        r = random.Random(f"{seed}/c18/dep/text/{i}")
+        if i < len(DEP_FORM_NAMES):     # latin-square rows: spot j gets form (i + j) mod 7 -> every (spot, form) pair within the first 7 texts
+            states.append({w: DEP_FORM_NAMES[(i + j) % len(DEP_FORM_NAMES)] for j, w in enumerate(DEP_SPOTS)})
+        else:
+            states.append({w: r.choice(DEP_FORM_NAMES) for w in DEP_SPOTS if r.random() < 0.8})
+    texts = [dep_text(st) for st in states]
+    return {"texts": texts, "disk": {"a.pydjinni": "disk_a = record { z: i8; }\n"}, "docs": {"a": list(range(len(texts))), "b": list(range(len(texts)))}}, states
+
+
+def dep_queries(d):
+    return [{"ev": "symbols", "u": d, "hier": True}, {"ev": "symbols", "u": d, "hier": False}]
+
+
+def dep_toggles(n_texts):
+    """every ordered triple of the four uniform texts (open i, change j, change k) on one document, symbols in both modes after each step"""
+    out = []
+    for i in range(4):
+        for j in range(4):
+            for k in range(4):
+                seq = []
+                for n, t in enumerate((i, j, k)):
+                    seq += [{"ev": "change" if n else "open", "u": "a", "t": t}] + dep_queries("a")
+                out.append(seq)
+    return out
+
+
+def dep_walk(r, n_texts, length):
+    """random walk over the pool on two documents (open / change / close / re-open), symbols of both documents in both modes after
+    every step, hover / definition on the last line block (the record that uses the deprecated types) at the end"""
+    seq, cur = [], {}
+    for _ in range(length):
+        d = r.choice(["a", "a", "b"])
+        if d in cur and r.random() < 0.15:
+            seq.append({"ev": "close", "u": d})
+            del cur[d]
+        else:
+            t = r.randrange(n_texts) if r.random() < 0.6 else r.randrange(min(4, n_texts))
+            seq.append({"ev": "change" if d in cur else "open", "u": d, "t": t})
+            cur[d] = t
+        if r.random() < 0.1:
+            seq.append({"ev": "save", "u": d})
+        seq += dep_queries("a") + dep_queries("b")
+    return seq, cur
+
+
+def dep_final(scn, cur):
+    out = []
+    for d, t in cur.items():
+        lines = scn["texts"][t].split("\n")
+        for line in range(max(0, len(lines) - 4), len(lines)):
+            for col in range(0, len(lines[line]) + 1, 2):
+                out.append({"ev": "hover", "u": d, "line": line, "col": col})
+                out.append({"ev": "definition", "u": d, "line": line, "col": col})
+    return out
+
+
+# ---- half-typed family: texts as they are while somebody types — a valid document with a junk / incomplete declaration in it -------
+# The parser recovers from these and hands the server an error list together with whatever declarations it could build; validate()
+# must publish the errors of the current text and rebuild its caches from the recovered declarations.
+JUNK = ["foo bar\n", "x =\n", "x = rcord { a: i8; }\n", "r2 = record { main: i8; }\n", "}\n", "= enum { k; }\n", "y = interface +cpp { m(; }\n",
+        "z = record { a: ; }\n", "@import\n", "w = function (a: i32) -> ;\n", "q = enum { k; } extra\n", "v = record { a: i8; b }\n", "static\n", "t = flags { a = ; }\n",
+        "u = error { c(p: ) ; }\n", "namespace {\n", "n = interface { property : i8; }\n"]
+JUNK_BASES = ["# doc of foo\nfoo = record { x: i8; }\n# @deprecated gone\nold = enum { k; }\nbar = record { f: foo; g: list<old>; }\n",
+              "namespace n.m {\n  inner = record { a: string; }\n}\nouter = record { f: n.m.inner; }\n",
+              "cb = function (a: i32) -> bool;\ni = interface +cpp { m(h: cb) -> i8; }\n"]
+
+
+def junk_scenario(seed, n):
+    texts = list(JUNK_BASES)
+    for i in range(n):
+        r = random.Random(f"{seed}/c18/junk/{i}")
+        base = JUNK_BASES[i % len(JUNK_BASES)].splitlines(keepends=True)
+        frag = JUNK[i % len(JUNK)] if i < len(JUNK) else r.choice(JUNK)
+        # between top-level declarations (or inside one, when the draw lands there), at the start or at the end
+        at = r.choice([0, len(base), r.randrange(len(base) + 1)])
+        texts.append("".join(base[:at]) + frag + "".join(base[at:]))
+    return {"texts": texts, "disk": {}, "docs": {"a": list(range(len(texts))), "b": list(range(len(texts)))}}
+
+
+def junk_sequences(scn, seed, n):
+    out, nb = [], len(JUNK_BASES)
+    for t in range(nb, len(scn["texts"])):
+        r = random.Random(f"{seed}/c18/junk/seq/{t}")
+        lines = scn["texts"][t].split("\n")
+        probes = []
+        for _ in range(4):
+            line = r.randrange(len(lines))
+            probes += [{"ev": k, "u": "a", "line": line, "col": r.randrange(len(lines[line]) + 1)} for k in ("hover", "definition")]
+        # typed into an open valid document, queried, repaired
+        out.append([{"ev": "open", "u": "a", "t": t % nb}] + dep_queries("a") + [{"ev": "change", "u": "a", "t": t}] + dep_queries("a") + probes
+                   + [{"ev": "change", "u": "a", "t": r.randrange(nb)}] + dep_queries("a"))
+        if t % 3 == 0:      # opened in that state
+            out.append([{"ev": "open", "u": "b", "t": t}] + dep_queries("b") + [{"ev": "close", "u": "b"}] + dep_queries("b"))
+    return out[:n] if n else out
+
+
+def load_corpus():
+    """minimised witnesses of past blind spots (classes of inputs), run first: [{what, scenario: {texts, disk, docs}, events}]"""
+    f = common.VERIF / "corpus" / "c18.json"
+    return json.loads(f.read_text()) if f.exists() else []
+
+
+
 # ---- evaluation (worker processes) -------------------------------------------------------------------------------------
 
 def _worker(args):
@@ -283,7 +436,8 @@ def _worker(args):
         # no disk events in this family: one table per naming for all its sequences
         if k not in tables:
             scn = scns[k]
-            pairs = [{"ev": "open", "u": d, "t": t} for d, ts in scn["docs"].items() for t in ts]
+            used = {(e["u"], e["t"]) for _, k2, sq in seqs if k2 == k for e in sq if e["ev"] in ("open", "change")}    # (document, text) pairs this worker's histories reach
+            pairs = [{"ev": "open", "u": d, "t": t} for d, ts in scn["docs"].items() for t in ts if (d, t) in used]
             tables[k] = lsp.front_table(root, scn, pairs)
         return tables[k]
 
@@ -340,6 +494,7 @@ def _worker(args):
     kinds = []
     for k, table0 in tables.items():
         kinds += sorted({row["r"]["k"] + (":" + row["r"]["cls"] if row["r"].get("cls") else "") for row in table0})
+        kinds += sorted({"census:" + c for row in table0 for c in row["r"].get("census", {})})
         for row in table0:
             if not row["r"].get("buffer_ok", True):
                 kinds.append("!buffer:" + str(k) + ":" + next((d for d in scns[k]["docs"] if lsp.uri_of(root, d, scns[k]) == row["u"]), "a") + ":" + str(row["t"]))
@@ -375,6 +530,8 @@ WHAT = {
     "wrong-diagnostics": "the publication after an open/change is not the front end's diagnostics for the current text",
     "handler-error": "a request/notification handler failed internally (exception swallowed and logged by error_logger)",
     "answer-not-from-current-text": "a hover/definition/documentSymbol answer differs from what the current text yields",
+    "symbol-deprecated-not-from-current-text": "a documentSymbol answer has the right symbols (names, kinds, ranges, details) but the `deprecated` attribute / `tags` "
+                                               "of a symbol is not what the current text says (`@deprecated` with or without a reason = deprecated)",
     "publication-on-close": "closing a document published diagnostics",
     "publication-on-query": "a query published diagnostics",
     "publication-on-save": "saving published diagnostics",
@@ -431,6 +588,46 @@ def shrink(ctx, scn, seq, clause):
     return cur, impl
 
 
+def symbol_diff(root, scn, events, impl):
+    """for a failing documentSymbol request: what the current text yields (fresh front-end run), the first differing symbol, and
+    whether the difference is confined to the `deprecated` attribute / `tags`"""
+    ev = events[-1]
+    if ev.get("ev") != "symbols" or not impl or impl[-1]["answer"].get("a") != "symbols":
+        return None
+    cur = None
+    for e in events[:-1]:
+        if e.get("u") == ev["u"]:
+            cur = e["t"] if e["ev"] in ("open", "change") else None if e["ev"] == "close" else cur
+    if cur is None:
+        return None
+    o = lsp.oracle(lsp.uri_of(root, ev["u"], scn), scn["texts"][cur])       # the disk is in the state after the history (check_one ran it)
+    exp = [a["sym"] for a in o.get("ast", []) if a["fileUri"] == lsp.uri_of(root, ev["u"], scn)] if ev["hier"] else \
+          [a["info"] for a in o.get("defs", []) if a["info"] and a["fileUri"] == lsp.uri_of(root, ev["u"], scn)]
+    got = impl[-1]["answer"]["l"]
+
+    def mask(x, hier):
+        x = json.loads(x)
+        if not hier:
+            return x[:3] + x[5:]
+        def m(y):
+            return y[:5] + [[m(c) for c in y[7]]]
+        return m(x)
+
+    def flat(x, path=""):
+        x = json.loads(x) if isinstance(x, str) else x
+        here = path + "/" + str(x[0])
+        return [(here, {"deprecated": x[5], "tags": x[6]})] + [z for c in x[7] for z in flat(c, here)]
+    out = {"text": scn["texts"][cur], "expected": exp[:6], "got": got[:6],
+           "only_deprecation_differs": len(exp) == len(got) and exp != got and [mask(x, ev["hier"]) for x in exp] == [mask(x, ev["hier"]) for x in got]}
+    if out["only_deprecation_differs"]:
+        if ev["hier"]:
+            e, g = [z for x in exp for z in flat(x)], [z for x in got for z in flat(x)]
+            out["first_difference"] = next(({"symbol": a[0], "expected": a[1], "got": b[1]} for a, b in zip(e, g) if a != b), None)
+        else:
+            out["first_difference"] = next(({"symbol": json.loads(a)[0], "expected": json.loads(a)[3:5], "got": json.loads(b)[3:5]} for a, b in zip(exp, got) if a != b), None)
+    return out
+
+
 def run(ctx):
     ctx.coverage["rule"] = ("event sequences over open/change/close/save/watched-files on 2 documents x 5 texts: all of depth <= 2 (quick; <= 4 thorough) under "
                             "every naming of the documents and files (plain; blanks, non-ASCII letters, #, %, +, & in file or directory names; names whose URI "
@@ -438,7 +635,8 @@ def run(ctx):
                             "all of depth <= 4 plain, all of depth <= 3 under every naming), each followed by documentSymbol (both modes) and hover/definition "
                             "at every column of the reference lines; "
                             "random sequences (<= 60 events, 3 documents, imports between documents, disk changes, queries on open/closed/unknown documents), "
-                            "rotating through the namings; distinct = distinct (naming, mutator sequence); non-trivial = at least two state-changing events")
+                            "rotating through the namings; deprecation family (every symbol kind x comment form none / doc / @deprecated / @deprecated <reason>, "
+                            "toggled by didChange, documentSymbol in both modes after every step); half-typed family (junk declarations in valid texts); distinct = distinct (naming, mutator sequence); non-trivial = at least two state-changing events")
     ctx.assumptions += [
         "protocol misuse that pygls itself rejects (change/close of a document that is not open, opening an open document) is outside the event alphabet",
         "generate_on_save is off; the configuration file does not exist (default configuration); code lenses are not queried",
@@ -485,7 +683,7 @@ def run(ctx):
     ctx.stats["battery_queries_per_document"] = {named_ex[k]["naming"]: {d: len(b) for d, b in bats[k].items()} for k in range(len(NAMINGS))}
     ctx.stats["t_exhaustive_s"] = round(time.time() - t0, 1)
     t0 = time.time()
-    ctx.stats["front_kinds_exhaustive"] = [k for k in kinds if not k.startswith("!buffer")]
+    ctx.stats["front_kinds_exhaustive"] = [k for k in kinds if not k.startswith("!buffer") and not k.startswith("census:")]
     # ---- random family
     rnd = []
     for i in range(ctx.n(160, 800)):
@@ -497,6 +695,49 @@ def run(ctx):
     ctx.stats["random_sequences"] = len(rnd)
     ctx.stats["t_random_s"] = round(time.time() - t0, 1)
 
+    # ---- deprecation family: `@deprecated` with / without a reason on every kind of declaration, toggled by didChange
+    t0 = time.time()
+    dep_scn, dep_states = dep_scenario(ctx.seed, ctx.n(12, 40))
+    named_dep = [apply_naming(dep_scn, nm) for nm in NAMINGS]
+    dep = []
+    for i, sq in enumerate(dep_toggles(len(dep_scn["texts"]))):
+        dep.append((len(dep), 0 if i % 2 == 0 else (i // 2 + ctx.seed) % len(NAMINGS), sq))
+    for i in range(ctx.n(36, 600)):
+        rr = random.Random(f"{ctx.seed}/c18/dep/walk/{i}")
+        sq, cur = dep_walk(rr, len(dep_scn["texts"]), rr.choice([3, 5, 8]))
+        k = (i + ctx.seed) % len(NAMINGS)
+        dep.append((len(dep), k, sq + dep_final(named_dep[k], cur)))
+    res_dep, dep_kinds = evaluate(ctx, named_dep, dep, shared_table=True)
+    census = sorted(k[len("census:"):] for k in dep_kinds if k.startswith("census:"))
+    ctx.stats["deprecation_sequences"] = len(dep)
+    ctx.stats["deprecation_texts"] = len(dep_scn["texts"])
+    ctx.stats["deprecation_census"] = census      # (kind of declaration : form the front end stored) pairs present in the pool
+    ctx.stats["deprecation_spot_forms"] = len({(w, st.get(w, "none")) for st in dep_states for w in DEP_SPOTS})
+    ctx.stats["t_deprecation_s"] = round(time.time() - t0, 1)
+    # the generator's own obligation: every kind that carries `deprecated` occurs bare, with a reason and not deprecated
+    need = [f"{k}:{f}" for k in ("record", "enum", "flags", "error", "function", "interface", "method", "field", "item", "flag", "error-code")
+            for f in ("none", "bare", "reason")]
+    missing = [x for x in need if x not in census]
+    ctx.obligation("c18_deprecation_pool_covers_every_kind_and_form", not missing, kind="generated",
+                   detail="missing (kind:form) in the front end's results for the generated pool: " + ", ".join(missing) if missing else
+                   f"{len(census)} (kind:form) pairs, {ctx.stats['deprecation_spot_forms']} (spot, comment form) pairs")
+    # ---- half-typed family
+    t0 = time.time()
+    junk_scn = junk_scenario(ctx.seed, ctx.n(34, 170))
+    named_junk = [apply_naming(junk_scn, nm) for nm in NAMINGS]
+    junk = [(i, (i + ctx.seed) % len(NAMINGS) if i % 2 else 0, sq) for i, sq in enumerate(junk_sequences(junk_scn, ctx.seed, 0))]
+    res_junk, junk_kinds = evaluate(ctx, named_junk, junk, shared_table=True)
+    ctx.stats["half_typed_sequences"] = len(junk)
+    ctx.stats["half_typed_front_kinds"] = [k for k in junk_kinds if not k.startswith("census:")]
+    ctx.stats["t_half_typed_s"] = round(time.time() - t0, 1)
+    # ---- corpus (classes of inputs that were blind spots once), every entry its own scenario
+    corpus = load_corpus()
+    named_corpus = [apply_naming({"texts": c["scenario"]["texts"], "disk": c["scenario"].get("disk", {}), "docs": c["scenario"]["docs"]},
+                                 NAMINGS[(i + ctx.seed) % 2 * 2]) for i, c in enumerate(corpus)]
+    cor = [(i, i, c["events"]) for i, c in enumerate(corpus)]
+    res_cor, _ = evaluate(ctx, named_corpus, cor, shared_table=False)
+    ctx.stats["corpus_sequences"] = len(cor)
+
     breaks, reported = [], {}
     # the tie's own premise: what the front end is given for an open document is the editor buffer, not the file of the same name
     stale_input = [k for k in kinds if k.startswith("!buffer")] + (["!buffer:random"] if any("!buffer" in (r.get("kinds") or []) for r in res_rnd) else [])
@@ -506,13 +747,16 @@ def run(ctx):
         ctx.report("server:front-end-input-not-the-buffer", "the text handed to the front end for an open document is not the editor buffer (a file of the same name exists on disk)",
                    {"input": {"scenario": replay_scenario(scn0), "events": [{"ev": "open", "u": name or "a", "t": int(t) if t.isdigit() else 0}]},
                     "observed": stale_input[:5]})
-    for fam, scns, items, results in (("exhaustive", named_ex, {i: (k, s) for i, k, s in ex}, res_ex), ("random", named_rnd, {i: (k, s) for i, k, s in rnd}, res_rnd)):
+    for fam, scns, items, results in (("corpus", named_corpus, {i: (k, s) for i, k, s in cor}, res_cor),
+                                      ("exhaustive", named_ex, {i: (k, s) for i, k, s in ex}, res_ex), ("random", named_rnd, {i: (k, s) for i, k, s in rnd}, res_rnd),
+                                      ("deprecation", named_dep, {i: (k, s) for i, k, s in dep}, res_dep),
+                                      ("half-typed", named_junk, {i: (k, s) for i, k, s in junk}, res_junk)):
         for res in results:
             k, seq = items[res["sid"]]
             scn = scns[k]
             muts = [e for e in seq if e["ev"] in ("open", "change", "close", "watched", "save", "disk")]
             nq = len(seq) - len(muts)
-            ctx.count(key=fam + scn["naming"] + json.dumps(muts if fam == "exhaustive" else res["sid"]), nontrivial=sum(1 for e in muts if e["ev"] in ("open", "change", "close")) >= 2,
+            ctx.count(key=fam + scn["naming"] + json.dumps(muts if fam in ("exhaustive", "deprecation", "half-typed") else res["sid"]), nontrivial=sum(1 for e in muts if e["ev"] in ("open", "change", "close")) >= 2,
                       sample={"family": fam, "naming": scn["naming"], "events": muts[:8], "queries": nq, "publications": res["pubs"], "non_null_answers": res["nonnull"]}, n=len(seq))
             ctx.stat(fam + "_publications", res["pubs"])
             ctx.stat(fam + "_non_null_answers", res["nonnull"])
@@ -530,14 +774,18 @@ def run(ctx):
             for c in clauses:
                 ctx.stat("spec_failed_" + c)
                 ctx.stat("spec_failed_" + c + "_naming_" + scn["naming"])
+                ctx.stat("spec_failed_" + c + "_family_" + fam)
                 if reported.get(c, 0) >= 3:
                     continue
                 reported[c] = reported.get(c, 0) + 1
                 first = next(i for i, cc in res["spec"] if cc == c)
                 # the shortest history that shows it: everything up to the first failing event, then shrunk
                 small, impl = shrink(ctx, scn, seq[:first + 1], c)
+                diff = symbol_diff(ctx.tmp / "shrink", scn, small, impl) if c == "answer-not-from-current-text" else None
+                if diff and diff["only_deprecation_differs"]:
+                    c = "symbol-deprecated-not-from-current-text"       # the shape: same symbols, wrong `deprecated` / `tags`
                 ctx.report("server:" + c, WHAT.get(c, c),
-                           {"input": {"scenario": replay_scenario(scn), "events": small},
+                           {"input": {"scenario": replay_scenario(scn), "events": small}, **({"symbols": diff} if diff else {}),
                             "uris": {d: lsp.uri_of(Path("/ws"), d, scn) for d in scn["docs"]},
                             "failing_event": small[-1] if small else None, "impl": impl[-1] if impl else None,
                             "found_in": {"family": fam, "naming": scn["naming"], "length": len(seq), "first_failing_index": first}})
